@@ -12,7 +12,7 @@
    validated by the differential oracle (plain exec vs instrumented exec), not proved. *)
 From Coq Require Import List ZArith NArith Bool.
 Import ListNotations.
-From PyccoloV Require Import gen.PyAst model.Tree model.Erase proofs.EraseSound.
+From PyccoloV Require Import gen.PyAst gen.Events model.Tree model.Erase model.RwFrag proofs.EraseSound proofs.RwFragProofs.
 
 Theorem C01_erase_sound :
   forall (D : Type) (dnone : D) (sem : N -> list scalar -> list (list D) -> D) (eqvl : list D -> list D -> Prop),
@@ -48,6 +48,21 @@ Theorem C01_erase_any :
 Proof. exact erase_sound. Qed.
 Print Assumptions C01_erase_any.
 
+(* ---- an unbounded statement about the rewriter itself, on a fragment of Python.
+   model/RwFrag.v is a Gallina model of the two rewriting passes (ExprRewriter on names, constants, binary operations,
+   comparison chains, unary / boolean / conditional expressions; expression statements, assignments, pass, if / else with
+   nested bodies; StatementInserter's before_stmt / after_stmt / after_module_stmt expansion, init_module / exit_module;
+   EmitterMixin.emit with direct and deferred events), for every set of unconditionally subscribed events.  ./check C01
+   compares rw_module with the REAL rewriter's output by whole-tree equality on generated fragment programs (K-syn).
+   C01_rw_frag: for EVERY fragment program and EVERY subscription set, erasing the model's output gives back the source;
+   C01_rw_frag_certified: hence the erasure certificate holds (and with C01_erase_sound, equivalence under the laws). *)
+Theorem C01_rw_frag : forall (c : rcfg) (m : tree), in_frag m = true -> erase (rw_module c m) = Some [m].
+Proof. exact rw_module_erase. Qed.
+Print Assumptions C01_rw_frag.
+Theorem C01_rw_frag_certified : forall (c : rcfg) (m : tree), in_frag m = true -> check_erase m (rw_module c m) = true.
+Proof. exact rw_module_certified. Qed.
+Print Assumptions C01_rw_frag_certified.
+
 (* non-vacuity: the laws are satisfiable - the trivial semantics (one denotation) satisfies all of them - and the
    check really computes: `x = EMIT("after_assign_rhs", <id>, ret=7, guards_by_handler_spec_id=None)` erases to `x = 7` *)
 Local Open Scope N_scope.
@@ -58,4 +73,15 @@ Definition ex_out : tree :=
      [T kCall [] [[T kName [SId 1] [[T kLoad [] []]]]; [T kConstant [SStr 1090; SNone] []; T kConstant [SNid 3; SNone] []];
                   [T kkeyword [SId 6] [[T kConstant [SInt 7%Z; SNone] []]]; T kkeyword [SId 7] [[T kConstant [SNone; SNone] []]]]]]]]; []].
 Example C01_nonvacuous : check_erase ex_src ex_out = true /\ check_erase ex_src ex_src = true.
+Proof. vm_compute. split; reflexivity. Qed.
+
+(* non-vacuity of the fragment theorem: `a = b + 1 < 2 < a` then `if a: a` is in the fragment, and with every event on
+   the model's output is a different, much larger tree *)
+Definition nmv (x : N) (ctx : N) : tree := T kName [SId x] [[T ctx [] []]].
+Definition ex_frag : tree :=
+  T kModule [] [[T kAssign [SNone] [[nmv 100 kStore]; [T kCompare [] [[T kBinOp [] [[nmv 101 kLoad]; [T kAdd [] []]; [T kConstant [SInt 1%Z; SNone] []]]];
+                                                      [T kLt [] []; T kLt [] []]; [T kConstant [SInt 2%Z; SNone] []; nmv 100 kLoad]]]];
+                 T kIf [] [[nmv 100 kLoad]; [T kExpr [] [[nmv 100 kLoad]]]; []]]; []].
+Example C01_rw_frag_nonvacuous :
+  in_frag ex_frag = true /\ Nat.ltb (4 * size ex_frag) (size (rw_module {| sub := fun _ => true |} ex_frag)) = true.
 Proof. vm_compute. split; reflexivity. Qed.
